@@ -34,7 +34,11 @@ type Case struct {
 	Run   int64 `json:"run,omitempty"`
 	Step  int64 `json:"step,omitempty"`
 	HTo   int   `json:"h_to,omitempty"`
+	// Mode "p2i" (units only): the unit calls PathToIndex ALONE on the walked paths, no IndexToPath in between.
+	Mode string `json:"mode,omitempty"`
 }
+
+const modeP2I = "p2i"
 
 const maxHeight = 30
 
@@ -45,7 +49,9 @@ func treeSize(h int) int64 { return int64(1)<<uint(h+1) - 1 }
 var checker = &vk.Checker[Case]{
 	ID: "C05",
 	Rule: "every (height h, index) of the full tree is produced by an explicit iterative pre-order walk whose visit counter is the index (quick: heights 0..23 completely = 2^25-26 nodes; thorough: all heights 0..30 = 2^32-33 pairs, sharded by subtree); " +
-		"per node IndexToPath(h,i) == walked path, PathToIndex(2^(h+1)-1, path) == i and the composite. " +
+		"per node IndexToPath(h,i) == walked path, PathToIndex(2^(h+1)-1, path) == i and the composite; after that pair PathToIndex is also asked about the path of the node walked BEFORE (a path IndexToPath did not just return) and must give that node's index. " +
+		"A single case (rapid, replay, the nodes above depth 8 of every enumerated tree) runs PathToIndex(path) ; IndexToPath ; PathToIndex(path) ; PathToIndex of every ancestor, the sibling, the left and right spine below the node, the nodes of index-1 and index+1 and the same prefix in the full trees of heights h-1, h+1, len, 30 (expected indexes from the tree model) ; PathToIndex(path) ; IndexToPath again. " +
+		"Both tiers start the grid with PathToIndex-only walks (no IndexToPath in between) over both ends, the middle and a stride of every height 0..30. " +
 		"Quick adds, for the heights 24..30 it cannot enumerate: (1) a strided lattice index = offset + j*stride over the WHOLE index range of every height, stride an odd number in 113..127 chosen with the offset from (VERIF_SEED, h), so that every window of 128 consecutive indexes of every height is met and every residue class modulo a power of two is met in proportion; " +
 		"(2) an offset sweep: for every k in 0..h and 64 multipliers m (1,2,3, the two largest, the rest pseudo-random, half of them odd) the h+4 consecutive indexes m*2^k-2 .. m*2^k+h+1, i.e. every position of the window (index-h, index] relative to a multiple of every power of two; " +
 		"(3) calling-context walks over heights 5..30 (indexes in step across all heights, descending index order at both ends of each height); " +
@@ -101,24 +107,109 @@ func pathWord(prefix uint64, l, h int) uint64 {
 	return (prefix<<32 | (uint64(1)<<uint(l) - 1)) << uint(h-l)
 }
 
+// checkNode evaluates one node through a fixed call sequence (a pure function of the node):
+//
+//	PathToIndex(path) [before any IndexToPath of this case] ; IndexToPath(h, idx) ; PathToIndex(path) ;
+//	PathToIndex on the node's RELATIVES - paths IndexToPath did not just return (see relatives) ;
+//	PathToIndex(path) again ; IndexToPath(h, idx) again.
+//
+// "PathToIndex(2^(h+1)-1, p) = index of p for every node p of the full tree" is a claim about PathToIndex on
+// any node, whatever was asked before; the pair (IndexToPath, PathToIndex of that very path) alone would let
+// anything IndexToPath leaves behind for PathToIndex look right.
 func checkNode(h int, idx int64, prefix uint64, l int) *vk.Failure {
 	want := model.PathWord(prefix, l, h)
 	full := int32(treeSize(h))
 	var got uint64
 	var back int32
-	if f := vk.Try(fmt.Sprintf("IndexToPath(h=%d, index=%d)", h, idx), func() { got = bmtree.IndexToPath(int32(h), int32(idx)) }); f != nil {
+	p2i := func(kind, when string) *vk.Failure {
+		if f := vk.Try(fmt.Sprintf("PathToIndex(full h=%d, path=%#x) %s", h, want, when), func() { back = bmtree.PathToIndex(full, want) }); f != nil {
+			return f
+		}
+		if int64(back) != idx {
+			return vk.Failf(kind, "PathToIndex(%#x, %#x) = %d, want %d (%s)", full, want, back, idx, when)
+		}
+		return nil
+	}
+	i2p := func(when string) *vk.Failure {
+		if f := vk.Try(fmt.Sprintf("IndexToPath(h=%d, index=%d) %s", h, idx, when), func() { got = bmtree.IndexToPath(int32(h), int32(idx)) }); f != nil {
+			return f
+		}
+		if got != want {
+			return vk.Failf("index-to-path", "IndexToPath(h=%d, index=%d) = %#x, want %#x (prefix=%b len=%d; %s)", h, idx, got, want, prefix, l, when)
+		}
+		return nil
+	}
+	if f := p2i("path-to-index-full", "before IndexToPath is called for this node"); f != nil {
 		return f
 	}
-	if got != want {
-		return vk.Failf("index-to-path", "IndexToPath(h=%d, index=%d) = %#x, want %#x (prefix=%b len=%d)", h, idx, got, want, prefix, l)
-	}
-	if f := vk.Try(fmt.Sprintf("PathToIndex(full h=%d, path=%#x)", h, want), func() { back = bmtree.PathToIndex(full, want) }); f != nil {
+	if f := i2p("first call"); f != nil {
 		return f
 	}
-	if int64(back) != idx {
-		return vk.Failf("path-to-index-full", "PathToIndex(%#x, %#x) = %d, want %d", full, want, back, idx)
+	if f := p2i("path-to-index-full", "right after IndexToPath returned this path"); f != nil {
+		return f
 	}
-	return nil
+	for _, r := range relatives(h, idx, prefix, l) {
+		w := model.PathWord(r.p, r.l, r.h)
+		wi, _ := model.NewTree(int32(treeSize(r.h))).Index(r.p, r.l)
+		if ni, ok := nodeIndex(r.h, w); !ok || ni != wi {
+			vk.Infra(fmt.Sprintf("forward map and tree oracle disagree on the %s of h=%d idx=%d: %d,%v / %d", r.name, h, idx, ni, ok, wi))
+			return nil
+		}
+		rfull := int32(treeSize(r.h))
+		if f := vk.Try(fmt.Sprintf("PathToIndex(full h=%d, path=%#x) after IndexToPath(h=%d, index=%d)", r.h, w, h, idx), func() { back = bmtree.PathToIndex(rfull, w) }); f != nil {
+			return f
+		}
+		if int64(back) != wi {
+			return vk.Failf("path-to-index-other-node", "after IndexToPath(h=%d, index=%d) = %#x: PathToIndex(%#x, %#x) = %d, want %d (%s: prefix=%b len=%d height=%d)",
+				h, idx, want, rfull, w, back, wi, r.name, r.p, r.l, r.h)
+		}
+	}
+	if f := p2i("path-to-index-full", "after PathToIndex was asked about other nodes"); f != nil {
+		return f
+	}
+	return i2p("second call, after the PathToIndex calls")
+}
+
+type relative struct {
+	name string
+	h    int
+	p    uint64
+	l    int
+}
+
+// relatives lists nodes other than (h, prefix, l) whose PathToIndex is asked after IndexToPath(h, idx) returned:
+// every ancestor, the sibling, every node of the left and of the right spine below the node (all share searching
+// bits, mask bits or both with the node), the pre-order neighbours idx-1 and idx+1, and the node of the same
+// prefix in full trees of other heights (h-1, h+1, the tree in which it is a leaf, 30).
+func relatives(h int, idx int64, prefix uint64, l int) []relative {
+	var out []relative
+	for k := 1; k <= l; k++ {
+		out = append(out, relative{"ancestor", h, prefix >> uint(k), l - k})
+	}
+	if l > 0 {
+		out = append(out, relative{"sibling", h, prefix ^ 1, l})
+	}
+	for k := 1; k <= h-l; k++ {
+		out = append(out, relative{"left-spine descendant", h, prefix << uint(k), l + k})
+		out = append(out, relative{"right-spine descendant", h, prefix<<uint(k) | (uint64(1)<<uint(k) - 1), l + k})
+	}
+	if idx > 0 {
+		p, pl := inverse(h, idx-1)
+		out = append(out, relative{"node of index-1", h, p, pl})
+	}
+	if idx+1 < treeSize(h) {
+		p, pl := inverse(h, idx+1)
+		out = append(out, relative{"node of index+1", h, p, pl})
+	}
+	seen := map[int]bool{h: true}
+	for _, oh := range []int{h - 1, h + 1, l, maxHeight} {
+		if oh < l || oh < 0 || oh > maxHeight || seen[oh] {
+			continue
+		}
+		seen[oh] = true
+		out = append(out, relative{"same prefix in the tree of another height", oh, prefix, l})
+	}
+	return out
 }
 
 // inDomain: the quantifier's domain (and, for a unit, a sane extent).
@@ -127,7 +218,10 @@ func inDomain(c Case) bool {
 		return false
 	}
 	if c.Run == 0 {
-		return c.Index >= 0 && c.Index < treeSize(c.H) && c.Step == 0 && c.HTo == 0
+		return c.Index >= 0 && c.Index < treeSize(c.H) && c.Step == 0 && c.HTo == 0 && c.Mode == ""
+	}
+	if c.Mode != "" && c.Mode != modeP2I {
+		return false
 	}
 	if c.Run < 0 || c.Run > int64(1)<<32 || c.HTo > maxHeight || c.Step > int64(1)<<32 || c.Step < -(int64(1)<<32) {
 		return false
@@ -160,15 +254,24 @@ func panicFailure(h int, idx int64, r any) *vk.Failure {
 	if len(st) > 2500 {
 		st = st[:2500]
 	}
-	return vk.Failf("panic", "IndexToPath(h=%d, index=%d) / PathToIndex(full h=%d, its path) panicked: %v\n%s", h, idx, h, r, st)
+	return vk.Failf("panic", "IndexToPath(h=%d, index=%d) / PathToIndex(full h=%d, its path or the path of the node walked before it) panicked: %v\n%s", h, idx, h, r, st)
 }
 
 // walkUnit evaluates the nodes of a unit in order and returns the first node
 // that fails. A panic of the library is a failure of the node that was running.
+// Per node: IndexToPath(h, idx) ; PathToIndex(its path) ; PathToIndex(path of the node walked BEFORE it) - the
+// last call asks PathToIndex about a path that IndexToPath did not just return (in a pre-order run that is
+// the parent or the end of the subtree to the left, in a strided run an unrelated node, in a walk across
+// heights the same index in the tree one level lower). A failure of that lagged call is reported for the
+// node that was running (the calls up to and including its IndexToPath are what the failure needs).
+// Mode "p2i": PathToIndex alone, node after node.
 func walkUnit(c Case) (fh int, fidx int64, f *vk.Failure) {
 	step := c.Step
 	if step == 0 {
 		step = 1
+	}
+	if c.Mode == modeP2I {
+		return walkP2I(c, step)
 	}
 	if step == 1 && c.HTo <= c.H {
 		fidx, f = walkRun(c.H, c.Index, c.Run)
@@ -185,6 +288,7 @@ func walkUnit(c Case) (fh int, fidx int64, f *vk.Failure) {
 			fh, fidx, f = curH, cur, panicFailure(curH, cur, r)
 		}
 	}()
+	prevH, prevIdx, prevWant := -1, int64(0), uint64(0)
 	for j := int64(0); j < c.Run; j++ {
 		idx := c.Index + j*step
 		for h := c.H; h <= hTo; h++ {
@@ -199,6 +303,48 @@ func walkUnit(c Case) (fh int, fidx int64, f *vk.Failure) {
 			}
 			if back := bmtree.PathToIndex(int32(treeSize(h)), want); int64(back) != idx {
 				return h, idx, vk.Failf("path-to-index-full", "PathToIndex(full h=%d, %#x) = %d, want %d", h, want, back, idx)
+			}
+			if prevH >= 0 {
+				if back := bmtree.PathToIndex(int32(treeSize(prevH)), prevWant); int64(back) != prevIdx {
+					return h, idx, lagFailure(h, idx, want, prevH, prevIdx, prevWant, back)
+				}
+			}
+			prevH, prevIdx, prevWant = h, idx, want
+		}
+	}
+	return 0, -1, nil
+}
+
+func lagFailure(h int, idx int64, path uint64, prevH int, prevIdx int64, prevPath uint64, back int32) *vk.Failure {
+	return vk.Failf("path-to-index-other-node", "after IndexToPath(h=%d, index=%d) = %#x: PathToIndex(full h=%d, %#x) = %d, want %d (the path of the node walked before)",
+		h, idx, path, prevH, prevPath, back, prevIdx)
+}
+
+// walkP2I: PathToIndex alone on the nodes idx = Index + j*step, heights H..max(H,HTo) per index; no
+// IndexToPath call in between (PathToIndex must not need one).
+func walkP2I(c Case, step int64) (fh int, fidx int64, f *vk.Failure) {
+	hTo := max(c.H, c.HTo)
+	curH, cur := c.H, c.Index
+	defer func() {
+		if r := recover(); r != nil {
+			st := string(debug.Stack())
+			if len(st) > 2500 {
+				st = st[:2500]
+			}
+			fh, fidx, f = curH, cur, vk.Failf("panic", "PathToIndex(full h=%d, path of index %d) panicked: %v\n%s", curH, cur, r, st)
+		}
+	}()
+	for j := int64(0); j < c.Run; j++ {
+		idx := c.Index + j*step
+		for h := c.H; h <= hTo; h++ {
+			if idx < 0 || idx >= treeSize(h) {
+				continue
+			}
+			curH, cur = h, idx
+			prefix, l := inverse(h, idx)
+			want := pathWord(prefix, l, h)
+			if back := bmtree.PathToIndex(int32(treeSize(h)), want); int64(back) != idx {
+				return h, idx, vk.Failf("path-to-index-full", "PathToIndex(full h=%d, %#x) = %d, want %d (PathToIndex-only walk: prefix=%b len=%d)", h, want, back, idx, prefix, l)
 			}
 		}
 	}
@@ -229,6 +375,7 @@ func walkRun(h int, start, n int64) (fidx int64, f *vk.Failure) {
 	prefix, l := inverse(h, start)
 	hh, full := int32(h), int32(size)
 	idx := start
+	prevWant := uint64(0)
 	for end := start + n; idx < end; idx++ {
 		cur = idx
 		want := pathWord(prefix, l, h)
@@ -238,6 +385,12 @@ func walkRun(h int, start, n int64) (fidx int64, f *vk.Failure) {
 		if back := bmtree.PathToIndex(full, want); int64(back) != idx {
 			return idx, vk.Failf("path-to-index-full", "PathToIndex(full h=%d, %#x) = %d, want %d", h, want, back, idx)
 		}
+		if idx > start {
+			if back := bmtree.PathToIndex(full, prevWant); int64(back) != idx-1 {
+				return idx, lagFailure(h, idx, want, h, idx-1, prevWant, back)
+			}
+		}
+		prevWant = want
 		// pre-order successor
 		if l < h {
 			prefix <<= 1
@@ -289,6 +442,7 @@ func walkStride(h int, start, n, step int64) (fidx int64, f *vk.Failure) {
 	}()
 	hh, full := int32(h), int32(size)
 	idx := start
+	prevGot := uint64(0)
 	for j := int64(0); j < n && idx < size; j, idx = j+1, idx+step {
 		cur = idx
 		got := bmtree.IndexToPath(hh, int32(idx))
@@ -306,6 +460,12 @@ func walkStride(h int, start, n, step int64) (fidx int64, f *vk.Failure) {
 		if back := bmtree.PathToIndex(full, got); int64(back) != idx {
 			return idx, vk.Failf("path-to-index-full", "PathToIndex(full h=%d, %#x) = %d, want %d", h, got, back, idx)
 		}
+		if j > 0 { // prevGot was found to be the path of idx-step in the previous round
+			if back := bmtree.PathToIndex(full, prevGot); int64(back) != idx-step {
+				return idx, lagFailure(h, idx, got, h, idx-step, prevGot, back)
+			}
+		}
+		prevGot = got
 	}
 	return -1, nil
 }
@@ -453,6 +613,9 @@ func TestGrid(t *testing.T) {
 	shard, nshards := vk.Shard()
 	maxH := gridMaxH()
 	g := &gridRun{t: t}
+	if shard == 0 {
+		g.p2iWalks() // before the walks that call IndexToPath
+	}
 	if maxH < maxHeight && shard == 0 {
 		// cheap and aimed at the places where the code under test changes behaviour: first
 		g.offsetSweep(maxH + 1)
@@ -607,6 +770,29 @@ func (g *gridRun) offsetSweep(fromH int) {
 	}
 	g.extra += n
 	vk.CountConstructed(n, 0, "offset-sweep-node h:24-30")
+}
+
+// p2iWalks: PathToIndex ALONE (units of mode "p2i"; no IndexToPath call between its calls) on every height
+// 0..30: the first and the last 2048 nodes ascending, 2048 nodes around the root's right child descending,
+// 2048 nodes spread over the whole index range (odd stride), and the first 2048 indexes in step across all
+// heights. Evaluated, not counted as distinct.
+func (g *gridRun) p2iWalks() {
+	n := int64(0)
+	const span = 2048
+	g.unit(Case{H: 0, HTo: maxHeight, Index: 0, Run: span, Mode: modeP2I}, false)
+	for h := 0; h <= maxHeight; h++ {
+		size := treeSize(h)
+		r := min(span, size)
+		n += r
+		g.unit(Case{H: h, Index: 0, Run: r, Mode: modeP2I}, false)
+		g.unit(Case{H: h, Index: size - r, Run: r, Mode: modeP2I}, false)
+		g.unit(Case{H: h, Index: min(size-1, int64(1)<<uint(h)+span/2), Run: r, Step: -1, Mode: modeP2I}, false)
+		stride := (size/span)&^1 + 1 // odd; 1 for the trees smaller than 2*span
+		g.unit(Case{H: h, Index: int64(vk.Mix(vk.Seed()*31+uint64(h)+0x5c05) % uint64(stride)), Run: r, Step: stride, Mode: modeP2I}, false)
+		n += 4 * r
+	}
+	g.extra += n
+	vk.CountConstructed(n, 0, "path-to-index-only-walk-node h:0-30")
 }
 
 // contextWalks: the same functions called in orders the enumeration never uses (a result must not
